@@ -337,11 +337,31 @@ def runMatch (env : EnumEnv) (ty : Ty) (arms : List Pat) (v : Val) (below : List
   | none => none
   | some st => some (st.taken.map (fun k => mc.2.getD k 0), st.taken, st.locals, st.stack)
 
-/-- `let pat = value` / `for pat in …`: `handle_pat_binding` with a fresh decision set -/
+/-- the binding bodies of `bind_irrefutable_pat` after the untested last combination:
+    `jump endbind; label bind_k; handle_pat_binding under combination k` for every tested one -/
+def letBodies (env : EnumEnv) (ty : Ty) (p : Pat) : Nat → List (List Path × List Instr) → List Instr
+  | _, [] => []
+  | k, (D, _) :: rest =>
+    [.jump lblEndMatch, .label (lblArm k)] ++ bind env [0] ty p D ++ letBodies env ty p (k + 1) rest
+
+/-- `bind_irrefutable_pat` (`let` / `var` / `for`, after D103): the combinations of or-pattern
+    alternatives are those of the arm loop (`or_pat_combinations` is shared with `match`); with a single
+    combination, or a `void` value, the pattern is bound directly; otherwise every combination but
+    the last is compared on a copy of the value (the code of a match pass) and the variables are
+    bound under the first combination that matches, the last one untested.  The model reuses the
+    match labels: `bind_k` = `lblArm k`, `endbind` = `lblEndMatch`. -/
+def letCode (env : EnumEnv) (ty : Ty) (p : Pat) : List Instr :=
+  let passes := armPasses env ty 0 p (2 ^ orCount p) 0 []
+  if passes.length == 1 || ty.isVoid then bind env [0] ty p ((passes.head?.map (·.1)).getD [])
+  else
+    passes.dropLast.flatMap (·.2) ++ bind env [0] ty p ((passes.getLast?.map (·.1)).getD []) ++
+      letBodies env ty p 0 passes.dropLast ++ [.label lblEndMatch]
+
+/-- `let pat = value` / `for pat in …` -/
 def runLet (env : EnumEnv) (ty : Ty) (p : Pat) (v : Val) (below : List SVal) :
     Option (List (Nat × SVal) × List SVal) :=
   let st0 : St := { stack := (if ty.isVoid then below else repr env ty v :: below), locals := [], taken := none, skip := none }
-  match run (bind env [0] ty p []) st0 with
+  match run (letCode env ty p) st0 with
   | none => none
   | some st => some (st.locals, st.stack)
 
